@@ -16,7 +16,7 @@ use std::time::{Duration, Instant};
 pub const SEGS: [&str; 10] = ["a", "-", "$A", "${A}", "$AB", "${AB}", "$U", "${U}", "$?", "$$"];
 /// SEGS plus the characters that decide where an unbraced name ends or whether a `$` starts a reference at all
 pub const EXT: [&str; 16] = ["a", "-", "$A", "${A}", "$AB", "${AB}", "$U", "${U}", "$?", "$$", "_", "1", ".", "é", "$", "%"];
-pub const ENVS: [(&str, &str, &str, &str); 9] = [
+pub const ENVS: [(&str, &str, &str, &str); 12] = [
     // (label, A, AB, B)
     ("plain", "va", "vab", "vb"),
     ("blank", "x y", "vab", "vb"),
@@ -27,6 +27,10 @@ pub const ENVS: [(&str, &str, &str, &str); 9] = [
     ("mutual", "$B", "${AB}", "$A"),
     ("positional", "$1", "vab", "vb"),
     ("regex", "a.*+(b)[c]", "v\\1", "vb"),
+    // values that later expansion passes could take for syntax: a brace group, a numeric range, command substitutions
+    ("brace-group", "{a,b}", "x{c,d}y", "vb"),
+    ("numeric-range", "{1..3}", "p{2..1}", "vb"),
+    ("command-substitution", "$(nosuchcmd-x)", "`nosuchcmd-y`", "vb"),
 ];
 pub const STATUS: i32 = 7;
 
@@ -237,7 +241,8 @@ fn cases_ext(nsegs: usize, envs: &'static [usize]) -> Box<dyn Iterator<Item = Ca
         if segs.iter().any(|i| *i >= SEGS.len()) && !positional {
             for &env in envs {
                 for exported in [true, false] {
-                    for quote in 0..3u8 {
+                    // (single-quoted words are never expanded: covered by the base steps)
+                    for quote in 0..2u8 {
                         v.push(Case { env, exported, shadow: false, quote, segs: segs.clone() });
                     }
                 }
@@ -248,6 +253,7 @@ fn cases_ext(nsegs: usize, envs: &'static [usize]) -> Box<dyn Iterator<Item = Ca
 }
 
 static EXT_ENVS: [usize; 3] = [0, 1, 8];
+static RESCAN_ENVS: [usize; 3] = [9, 10, 11];
 static ALL_ENVS: [usize; 9] = [0, 1, 2, 3, 4, 5, 6, 7, 8];
 static HOT_ENVS: [usize; 3] = [5, 6, 8];
 static SELF_ENVS: [usize; 2] = [5, 6];
@@ -258,7 +264,7 @@ pub fn run(ctx: &Ctx) -> Value {
     std::env::set_current_dir(&cwd).unwrap();
     std::env::set_var("PATH", format!("{}/nopath", ctx.scratch));
     std::env::set_var("HOME", &cwd);
-    let budget = if ctx.thorough() { 1500 } else { 55 };
+    let budget = if ctx.thorough() { 1500 } else { 75 };
     let deadline = Instant::now() + Duration::from_secs(budget);
     let mk = |label: &str| SweepOpts {
         workers: ctx.workers,
@@ -274,6 +280,11 @@ pub fn run(ctx: &Ctx) -> Value {
     for n in 1..=3usize {
         steps.push((format!("words of {} segments x 9 envs x exported/local x 3 quote forms", n), Box::new(move || cases(n, &ALL_ENVS))));
     }
+    // values that contain brace groups, ranges or command substitutions: inserted as they are, never expanded / run
+    let nrescan = if ctx.thorough() { 3usize } else { 2 };
+    steps.push((format!("words of 1..{} segments x {{brace-group, numeric-range, command-substitution}} values x exported/local x 3 quote forms", nrescan), Box::new(move || {
+        Box::new((1..=nrescan).flat_map(|n| cases(n, &RESCAN_ENVS)))
+    })));
     // name boundaries: a reference followed by `_`, a digit, `.`, a multi-byte character; a lone `$`; `$%`
     let next = if ctx.thorough() { 4 } else { 3 };
     steps.push((format!("words of 2..{} segments over the extended segment set (name-boundary characters) x 3 envs", next), Box::new(move || {
